@@ -265,13 +265,24 @@ func c19QuotaCase(c *Ctx) *Result {
 	params := map[string]interface{}{"udp": udp}
 	c.Out.Start("C19", fmt.Sprintf("C19-quota/%d/%d", c.Seed, c.Idx), c.Seed, params)
 	res := &Result{Params: params, Obs: map[string]float64{}}
-	env, err := NewEnv(EnvCfg{UDP: udp, Users: users})
+	env, err := NewEnv(EnvCfg{UDP: udp, Users: users, Multiplex: 3})
 	if err != nil {
 		res.Verdict, res.Detail = Inconclusive, err.Error()
 		return res
 	}
 	defer env.Close()
 	env.Srv.SetServerUsers(um)
+	// a long-lived connection of the quota user, opened while still within the allowance:
+	// later sessions of this client are multiplexed on it
+	keep, _ := env.NewClient(0, "10.0.1.77")
+	defer keep.Close()
+	{
+		p := &SessPlan{Idx: 0, CloseBy: -1, W: [2][]int{{50}, {60}}, R: [2][]int{{4096}, {4096}}, Key: [2]uint64{key2(c.Seed, c.Idx, 9, 0, 20), key2(c.Seed, c.Idx, 9, 1, 20)}}
+		if rs, to := runTransfer(env, keep, []*SessPlan{p}, XferOpt{Watchdog: 60 * time.Second, NoClose: true}); to || rs[0].ReadN[1] != 60 {
+			res.Verdict, res.Detail = Inconclusive, "long-lived session failed"
+			return res
+		}
+	}
 	// move n bytes for user ui (split between both directions), then report whether a NEW session is served
 	move := func(ui int, n int) bool {
 		cm, _ := env.NewClient(ui, "")
@@ -312,6 +323,16 @@ func c19QuotaCase(c *Ctx) *Result {
 		res.Obs["quota_probes"]++
 		if ok || relayed > 0 {
 			sig, detail = "exceeded-user-still-served", fmt.Sprintf("user with a 2 MB/day quota and ~4 MiB counted traffic got a new session served (%d server->client bytes relayed)", relayed)
+		}
+	}
+	if sig == "" {
+		// ... also when the new session rides on the connection that was authenticated before the quota was exceeded
+		p := &SessPlan{Idx: 0, CloseBy: 0, W: [2][]int{{100}, {300}}, R: [2][]int{{4096}, {4096}}, Key: [2]uint64{key2(c.Seed, c.Idx, 8, 0, 20), key2(c.Seed, c.Idx, 8, 1, 20)}}
+		rs, _ := runTransfer(env, keep, []*SessPlan{p}, XferOpt{Watchdog: 40 * time.Second})
+		res.Obs["quota_probes"]++
+		res.Obs["quota_probes_on_existing_connection"]++
+		if rs[0].ReadN[1] > 0 {
+			sig, detail = "exceeded-user-still-served|session-on-existing-connection", fmt.Sprintf("user over the quota got a new session served on a connection authenticated earlier (%d server->client bytes relayed, udp=%v)", rs[0].ReadN[1], udp)
 		}
 	}
 	if sig == "" {
